@@ -1,5 +1,7 @@
 package route
 
+import "strings"
+
 // Routes stores a list of routes usually for a single host.
 type Routes []*Route
 
@@ -14,6 +16,14 @@ func (rt Routes) find(path string) *Route {
 }
 
 // sort by path in reverse order (most to least specific)
-func (rt Routes) Len() int           { return len(rt) }
-func (rt Routes) Swap(i, j int)      { rt[i], rt[j] = rt[j], rt[i] }
-func (rt Routes) Less(i, j int) bool { return rt[j].Path < rt[i].Path }
+func (rt Routes) Len() int      { return len(rt) }
+func (rt Routes) Swap(i, j int) { rt[i], rt[j] = rt[j], rt[i] }
+func (rt Routes) Less(i, j int) bool {
+	// compare case-insensitively first: the iprefix matcher ignores case, and it
+	// too must meet the longest matching path first
+	li, lj := strings.ToLower(rt[i].Path), strings.ToLower(rt[j].Path)
+	if li != lj {
+		return lj < li
+	}
+	return rt[j].Path < rt[i].Path
+}
